@@ -114,7 +114,7 @@ def r2(ctx, fs):
                 continue
             if p.end == 'throw':
                 continue
-            re = [canon(s, env, subst=False) for s in p.stmts]
+            re = [canon(s, env, subst=False) for s in p.live(env)]
             ok = any(t == ('=', 'incs', ('mcall', 'ratio::solver::get_incs', 'this')) for t in re)
             # a path that only falls through without touching anything would spin: every arm must refresh
             n_ok += ok
